@@ -287,6 +287,8 @@ def case_source(prop, name, progast, nparams, pv, kind, data, what, path, extra=
     else:
         exp = ', '.join('"%s".to_string()' % e.replace('"', '\\"') for e in data)
         srt = '    got.sort();\n    expected.sort();\n' if kind != 'sequence' else ''
+        if kind == 'subset':
+            srt = '    got.retain(|g| !expected.contains(g));\n    expected.clear();\n'
         check = ('    let re = |s: String| { let mut o = String::new(); let mut it = s.chars().peekable();\n'
                  '        while let Some(c) = it.next() { o.push(c); if c == \'_\' { if it.peek() == Some(&\'.\') { it.next(); while it.peek().map_or(false, |d| d.is_ascii_digit()) { it.next(); } } } } o };\n'
                  '    let mut got: Vec<String> = query.run().take(64).map(|r| re(format!("{}", *r.q))).collect();\n'
